@@ -162,6 +162,12 @@ def rand_program_text(rnd, nstmt=None, files=(), strength=0.3):
             lines.extend(apm.r_stmt(rand_stmt(rnd, files=files), style))
         except (ValueError, IndexError, KeyError):
             continue
+    # define most of the names somewhere, so that many inputs get past symbol resolution into layout and encoding
+    if rnd.random() < 0.7:
+        for nm in NAMES:
+            if rnd.random() < 0.75:
+                d = f"{nm} = {rnd.choice([0, 1, 2, 5, 0o100, 0o1000, 0o177777])}" if rnd.random() < 0.5 else f"{nm}: .word {rnd.randrange(8)}"
+                lines.insert(rnd.randrange(len(lines) + 1), d)
     return "\n".join(lines) + "\n"
 
 
